@@ -296,6 +296,10 @@ func resolveRound(c ResolveCase, be *backend, kv kvset) (res vh.Result) {
 		if err == nil {
 			res.Violation = fmt.Sprintf("no candidate exists but ResolveComponentQuery succeeded with %q", got.Path())
 			res.Signature = "resolve:success-on-nothing"
+		} else if v, sig, inc := restRound(c, be, kv, want, cand); v != "" {
+			res.Violation, res.Signature = v, sig
+		} else if inc != "" {
+			res.Inconclusive = inc
 		}
 		return
 	}
@@ -324,6 +328,13 @@ func resolveRound(c ResolveCase, be *backend, kv kvset) (res vh.Result) {
 	if q.Component != c.Component || q.RoleName != c.Role || q.EntryKey != c.Entry || q.RunType != apricotpb.RunType(rt) {
 		res.Violation = "ResolveComponentQuery modified its argument"
 		res.Signature = "resolve:argument-modified"
+	}
+	if res.Violation == "" {
+		if v, sig, inc := restRound(c, be, kv, want, cand); v != "" {
+			res.Violation, res.Signature = v, sig
+		} else if inc != "" {
+			res.Inconclusive = inc
+		}
 	}
 	return
 }
